@@ -697,6 +697,20 @@ func init() {
 				Alphabet: b,
 			},
 			{
+				// a tick that FAILS (a deleted topic that nothing is attached to but that still
+				// owns a message: the delete is refused by the messages' foreign key until
+				// prune-completed-messages has run): the failure is the job's business,
+				// clients must not notice anything
+				ID: "C15/job-blocked-by-references", Prop: "C15", Depth: d(tier, 4, 5), Drain: true, Converge: true, Metamorphic: true,
+				Cfg: model.Cfg{Topics: []string{"T0"}, Subs: []model.SubCfg{
+					{Name: "S0", Topic: "T0"},
+				}},
+				Prelude: []model.Op{delTopic("T0"), mkTopic("T0"), pub1("T0", "", 0), delTopic("T0")},
+				Alphabet: append([]model.Op{
+					mkTopic("T0"), pub1("T0", "", 0), pull("S0", 10), delSub("S0"), mkSub("S0"), get("sub", "S0"),
+				}, jobs(0, 100, "prune-deleted-topics", "prune-completed-messages", "prune-deleted-subscription-deliveries", "prune-deleted-subscriptions")...),
+			},
+			{
 				// a name in use again while its deleted predecessor has not been reclaimed yet:
 				// every request by name must see the live row only, reclaimed or not
 				ID: "C15/reused-subscription-name", Prop: "C15", Depth: d(tier, 5, 6), Drain: true, Converge: true, Metamorphic: true, MetamorphicReverse: true,
